@@ -315,6 +315,12 @@ func (r *result) explainEnd(f *facts, e *endpoint) *vf.Verdict {
 	if (r.closer == e.name || (actor && (c.Cause == "trclose" || c.Cause == "reset"))) && r.causeAt > 0 {
 		evs = append(evs, ev{r.tCause, "local " + c.Cause})
 	}
+	for _, d := range f.resetTo[e.name] {
+		if p.conn != nil && p.didEnd && p.endAt <= d.sent {
+			evs = append(evs, ev{d.t, "stateless reset delivered"})
+			break
+		}
+	}
 	for _, ev := range evs {
 		if ev.t < T {
 			return r.bad("C17/end/ignored-event", "%s: %s at %v, but the connection only ended at %v (%v)", e.name, ev.what, ev.t, T, e.endErr)
@@ -507,11 +513,16 @@ func judge(r *result, u *vf.Unit) *vf.Verdict {
 		return r.bad("C17/cause/dial-error", "Dial succeeded although client and server share no application protocol")
 	}
 	for _, n := range r.notes {
-		if strings.Contains(n, "dial context was cancelled") {
-			return r.bad("C17/cancel/late-cancel-kills-connection", "%s", n)
-		}
 		if strings.HasPrefix(n, "poke:") {
 			return r.bad("C17/harness/setup", "%s", n)
+		}
+	}
+	if r.cancelDone && r.dialErr == nil {
+		// the dial context was cancelled after Dial had returned: the connection must not notice
+		for _, e := range []*endpoint{r.C, r.S} {
+			if e.conn != nil && e.didEnd && e.endAt == r.cancelAt && (r.closer == "" || r.tCause > r.cancelAt) {
+				return r.bad("C17/cancel/late-cancel-kills-connection", "the dial context was cancelled at %v, after Dial had returned; %s's connection ended in that instant with %v", r.cancelAt, e.name, e.endErr)
+			}
 		}
 	}
 
